@@ -214,6 +214,7 @@ func (c *IAMCache) GetUserAccount(access string) (Account, error) {
 
 // DeleteUserAccount deletes account from IAM service and cache
 func (c *IAMCache) DeleteUserAccount(access string) error {
+	verifhook.At("iam.deleting", "access", access)
 	err := c.service.DeleteUserAccount(access)
 	if err != nil {
 		return err
@@ -225,6 +226,7 @@ func (c *IAMCache) DeleteUserAccount(access string) error {
 }
 
 func (c *IAMCache) UpdateUserAccount(access string, props MutableProps) error {
+	verifhook.At("iam.updating", "access", access)
 	err := c.service.UpdateUserAccount(access, props)
 	if err != nil {
 		return err
